@@ -6,10 +6,18 @@ package transaction
 // C06: the weight a multi-signature account's signers contribute, counting every DISTINCT registered signer once.
 //@ spec func dsum(s []common.Address, k int, w types.SignerMap) mathint = ite(k <= 0, 0, dsum(s, k-1, w) + ite(has(w, s[k-1]) && !exists(j, 0, k-1, s[j] == s[k-1]), int(w[s[k-1]]), 0))
 
-//@ func (*TxProcessor).checkSignersWeight
+//@ func (*TxProcessor).checkSignersWeight   pure
 //@   props C06
 //@   requires p != nil && p.am != nil && tx != nil
 //@   ensures result == nil && len(accSigners) == 0 ==> len(signers) >= 1 && signers[0] == sender
 //@   ensures result == nil && len(accSigners) > 0 ==> dsum(signers, len(signers), signersMap) >= 100
 //@   invariant @loop 0: 0 <= $k && $k <= len(signers) && totalWeight == dsum(signers, $k, signersMap) && 0 <= totalWeight && totalWeight <= 255 * $k
 //@   invariant @loop 0: counted != nil && forall(j, 0, $k, has(counted, signers[j])) && forallKeys(a, counted, exists(j, 0, $k, signers[j] == a))
+
+// C06: which signing hash has to authorise whom.  With a separate gas payer: the payer signs the gas terms (GasPayerSigner) and
+// the sender signs the reimbursement form of the transaction; otherwise the payer must be the sender, who signs the default form.
+//@ func (*TxProcessor).verifyTransactionSigs   pure
+//@   props C06
+//@   requires p != nil && p.am != nil && tx != nil
+//@   ensures result == nil && len(tx.GasPayerSigs()) >= 1 ==> p.checkSignersWeight(tx.GasPayer(), tx, types.MakeGasPayerSigner()) == nil && p.checkSignersWeight(tx.From(), tx, types.MakeReimbursementTxSigner()) == nil
+//@   ensures result == nil && len(tx.GasPayerSigs()) == 0 ==> tx.GasPayer() == tx.From() && p.checkSignersWeight(tx.From(), tx, types.MakeSigner()) == nil
